@@ -152,8 +152,32 @@ def nontrivial(case, impl):
     return any(x[2] >= 1 and x[4] >= 2 for rows in o.values() for x in rows)
 
 
+def _tid0_rows(rows):
+    return {r["idx"] for r in rows if r["tid"] == 0 and r["stream"] < 0}
+
+
 def classify(case, impl, model, disc):
-    return None
+    """Known finding: a host-side thread whose tid is 0 (the records of 'Context Sync') gets the root id -abs(tid) = 0, which
+    is also the id of the first event; matched only if every differing row lies on such a thread or is event 0 itself."""
+    o = impl["out"]
+    if not disc or "error" in o:
+        return None
+    for (r, rows), (m, _ok) in zip(sorted(impl["frames"].items()), model):
+        t0 = _tid0_rows(rows)
+        got = {x[0]: x[1:] for x in o[r]}
+        mm = {x[0]: list(x[1:]) for x in m}
+        diff = {k for k in set(got) | set(mm) if got.get(k) != mm.get(k)}
+        if diff and not t0:
+            return None
+        if not diff <= (t0 | {0}):
+            return None
+        # the local equations may only fail on those rows (or on rows whose parent is event 0)
+        table = got
+        for b in local_equations(rows, table):
+            i = int(b.split(":")[0][4:])
+            if i not in (t0 | {0}) and table.get(i, [None])[0] != 0:
+                return None
+    return "C13-thread-id-zero-root-collision"
 
 
 LEVEL_TEXT = ("Proof (checker soundness): C13_local_equations_sound: any table whose rows satisfy the local equations (depth = parent's + 1; height = 1 + tallest "
